@@ -51,7 +51,14 @@ const (
 	c21ModeOmitted    = "omitted"         // broker advertises every key but K
 	c21ModeController = "controller-like" // broker advertises every key but K and Produce (key 0), like a KRaft controller listener
 	c21ModePre        = "pre-apiversions" // client configured from kversion.V0_9_0(): no ApiVersions key, no handshake
+	// K = ApiVersions only: like "range", and a handshake whose version is
+	// outside [BMin,BMax] is answered the way Kafka >= 2.4 does (KIP-511): a v0
+	// response with UNSUPPORTED_VERSION whose only ApiKeys entry is ApiVersions'
+	// own range; the client has to retry within it.
+	c21ModeKIP511 = "range+kip511"
 )
+
+func (c c21Case) ranged() bool { return c.Broker == c21ModeRange || c.Broker == c21ModeKIP511 }
 
 // c21Case is one enumerated configuration.
 type c21Case struct {
@@ -151,6 +158,8 @@ func (s *c21Broker) serve(conn net.Conn, id int) {
 		s.mu.Unlock()
 		var out []byte
 		switch {
+		case hs && s.c.Broker == c21ModeKIP511 && (ver > s.c.BMax || ver < s.c.BMin):
+			out = s.unsupportedApiVersions(corr) // still in the handshake phase
 		case hs:
 			handshook = true
 			out = s.apiVersions(ver, corr)
@@ -202,7 +211,7 @@ func (s *c21Broker) apiVersions(ver int16, corr int32) []byte {
 			switch s.c.Broker {
 			case c21ModeOmitted, c21ModeController:
 				continue
-			case c21ModeRange:
+			case c21ModeRange, c21ModeKIP511:
 				ak.MinVersion, ak.MaxVersion = s.c.BMin, s.c.BMax
 			}
 		} else if k == 0 && s.c.Broker == c21ModeController {
@@ -212,6 +221,23 @@ func (s *c21Broker) apiVersions(ver int16, corr int32) []byte {
 	}
 	// ApiVersions responses always use the v0 response header (no tags).
 	out := make([]byte, 8, 1024)
+	binary.BigEndian.PutUint32(out[4:], uint32(corr))
+	out = resp.AppendTo(out)
+	binary.BigEndian.PutUint32(out, uint32(len(out)-4))
+	return out
+}
+
+// unsupportedApiVersions is Kafka's (>= 2.4, KIP-511) answer to an ApiVersions
+// request of a version it does not support: a v0 response, UNSUPPORTED_VERSION,
+// and one ApiKeys entry with the supported ApiVersions range.
+func (s *c21Broker) unsupportedApiVersions(corr int32) []byte {
+	resp := kmsg.NewPtrApiVersionsResponse()
+	resp.Version = 0
+	resp.ErrorCode = 35
+	ak := kmsg.NewApiVersionsResponseApiKey()
+	ak.ApiKey, ak.MinVersion, ak.MaxVersion = 18, s.c.BMin, s.c.BMax
+	resp.ApiKeys = append(resp.ApiKeys, ak)
+	out := make([]byte, 8, 64)
 	binary.BigEndian.PutUint32(out[4:], uint32(corr))
 	out = resp.AppendTo(out)
 	binary.BigEndian.PutUint32(out, uint32(len(out)-4))
@@ -249,14 +275,35 @@ type c21Obs struct {
 	RespVer  int16      `json:"resp_ver"` // version of the response value
 }
 
-func c21UserMaxVersions(c c21Case) *kversion.Versions {
-	base := kversion.Stable
+// kversion.Stable() rebuilds every release table on each call (~0.3 ms); the
+// harness reads both tables once and rebuilds Versions values from them.
+var (
+	c21StableTab = c21Table(kversion.Stable())
+	c21V090Tab   = c21Table(kversion.V0_9_0())
+)
+
+func c21Table(vs *kversion.Versions) map[int16]int16 {
+	m := map[int16]int16{}
+	vs.EachMaxKeyVersion(func(k, v int16) { m[k] = v })
+	return m
+}
+
+func c21DefaultMax(c c21Case) (map[int16]int16, string) {
 	if c.Broker == c21ModePre {
-		base = kversion.V0_9_0
-	} else if c.UMax == c21None {
+		return c21V090Tab, "kversion.V0_9_0"
+	}
+	return c21StableTab, "the default (latest stable) max versions"
+}
+
+func c21UserMaxVersions(c c21Case) *kversion.Versions {
+	if c.Broker != c21ModePre && c.UMax == c21None {
 		return nil // default configuration
 	}
-	vs := base()
+	tab, _ := c21DefaultMax(c)
+	vs := new(kversion.Versions)
+	for k, v := range tab {
+		vs.SetMaxKeyVersion(k, v)
+	}
 	switch c.UMax {
 	case c21None:
 	case c21Missing:
@@ -404,7 +451,7 @@ func c21Expect(c c21Case) (ver int16, exists bool, why string) {
 	switch c.Broker {
 	case c21ModeOmitted, c21ModeController:
 		return -1, false, "the broker's ApiVersions response omits the key"
-	case c21ModeRange:
+	case c21ModeRange, c21ModeKIP511:
 		if c.BMax < hi {
 			hi = c.BMax
 		}
@@ -416,12 +463,8 @@ func c21Expect(c c21Case) (ver int16, exists bool, why string) {
 	case c21Missing:
 		return -1, false, "the key is not in the user's MaxVersions"
 	case c21None:
-		def := kversion.Stable()
-		what := "the default (latest stable) max versions"
-		if c.Broker == c21ModePre {
-			def, what = kversion.V0_9_0(), "kversion.V0_9_0"
-		}
-		u, has := def.LookupMaxKeyVersion(c.Key)
+		def, what := c21DefaultMax(c)
+		u, has := def[c.Key]
 		if !has {
 			return -1, false, "the key is not in " + what
 		}
@@ -468,16 +511,19 @@ func c21HandshakeMax(c c21Case) (int16, bool) {
 			return min(hi, c.UMax), true
 		}
 	}
-	if u, has := kversion.Stable().LookupMaxKeyVersion(18); has {
+	if u, has := c21StableTab[18]; has {
 		return min(hi, u), true
 	}
 	return -1, false
 }
 
-// c21Judge returns the violation class ("" = held) and a description.
-func c21Judge(c c21Case, o c21Obs) (string, string) {
+type c21Verdict struct{ cls, what string }
+
+// c21Judge returns the violations of one execution (none = held): at most one
+// about the ApiVersions handshake and one about the request of key K.
+func c21Judge(c c21Case, o c21Obs) (vs []c21Verdict) {
 	if o.Hang {
-		return "hang", "the request did not return within one virtual minute"
+		return []c21Verdict{{"hang", "the request did not return within one virtual minute"}}
 	}
 	want, exists, why := c21Expect(c)
 	// handshake frames: bounded by what is known before the handshake
@@ -487,38 +533,62 @@ func c21Judge(c c21Case, o c21Obs) (string, string) {
 			continue
 		}
 		if !hsOK {
-			return "apiversions-written-though-unknown-to-user-max", fmt.Sprintf("an ApiVersions v%d request was written although the user's max versions do not contain ApiVersions", f.Ver)
+			vs = append(vs, c21Verdict{"apiversions-written-though-unknown-to-user-max", fmt.Sprintf("an ApiVersions v%d request was written although the user's max versions do not contain ApiVersions", f.Ver)})
+			break
 		}
 		if f.Ver > hsMax {
-			return "apiversions-handshake-above-max", fmt.Sprintf("ApiVersions handshake written at v%d, above min(client max, user max)=%d", f.Ver, hsMax)
+			vs = append(vs, c21Verdict{"apiversions-handshake-above-max", fmt.Sprintf("ApiVersions handshake written at v%d, above min(client max, user max)=%d", f.Ver, hsMax)})
+			break
 		}
 	}
-	if !exists {
-		if o.NK > 0 {
-			cls := "written-though-no-version-exists"
-			switch {
-			case c.Broker == c21ModeOmitted || c.Broker == c21ModeController:
-				cls = "written-though-broker-omits-key"
-			case c.UMax == c21Missing || strings.HasPrefix(why, "the key is not in"):
-				cls = "written-though-unknown-to-user-max"
-			default:
-				cls += "/" + c21Which(c, o.Ver)
+	if c.Broker == c21ModeKIP511 && hsOK {
+		// Once the broker has answered a handshake with its ApiVersions
+		// range, a retry on that connection must be the highest version
+		// within min(client max, user max, broker max) and >= broker min.
+		seen := map[int]bool{}
+		for _, f := range o.Frames {
+			if !f.Handshake {
+				continue
 			}
-			return cls, fmt.Sprintf("no version satisfies all bounds (%s) but a v%d request was written (call returned: %s %q)", why, o.Ver, o.Class, o.Err)
+			if !seen[f.Conn] {
+				seen[f.Conn] = true
+				continue
+			}
+			allowed := min(hsMax, c.BMax)
+			if allowed < c.BMin {
+				vs = append(vs, c21Verdict{"apiversions-retry-though-no-version-exists", fmt.Sprintf("the broker answered UNSUPPORTED_VERSION advertising ApiVersions [%d,%d]; no version <= %d is in that range but a v%d retry was written", c.BMin, c.BMax, hsMax, f.Ver)})
+				break
+			}
+			if f.Ver != allowed {
+				vs = append(vs, c21Verdict{"apiversions-retry-wrong-version", fmt.Sprintf("the broker answered UNSUPPORTED_VERSION advertising ApiVersions [%d,%d]; expected the retry at v%d, saw v%d", c.BMin, c.BMax, allowed, f.Ver)})
+				break
+			}
 		}
-		if o.Class == "ok" {
-			return "no-error-though-no-version-exists", fmt.Sprintf("no version satisfies all bounds (%s), nothing was written, but the call returned no error", why)
+	}
+	switch {
+	case !exists && o.NK > 0:
+		cls := "written-though-no-version-exists"
+		switch {
+		case c.Broker == c21ModeController || c.Broker == c21ModeOmitted && c.Key == 0:
+			// the advertisement lacks Produce (key 0) as well
+			cls = "written-though-broker-omits-key/produce-not-advertised"
+		case c.Broker == c21ModeOmitted:
+			cls = "written-though-broker-omits-key"
+		case c.UMax == c21Missing || strings.HasPrefix(why, "the key is not in"):
+			cls = "written-though-unknown-to-user-max"
+		default:
+			cls += "/" + c21Which(c, o.Ver)
 		}
-		return "", ""
+		vs = append(vs, c21Verdict{cls, fmt.Sprintf("no version satisfies all bounds (%s) but a v%d request was written (call returned: %s %q)", why, o.Ver, o.Class, o.Err)})
+	case !exists && o.Class == "ok":
+		vs = append(vs, c21Verdict{"no-error-though-no-version-exists", fmt.Sprintf("no version satisfies all bounds (%s), nothing was written, but the call returned no error", why)})
+	case !exists:
+	case o.NK == 0:
+		vs = append(vs, c21Verdict{"not-written", fmt.Sprintf("v%d satisfies all bounds but no request was written (call returned: %s %q)", want, o.Class, o.Err)})
+	case o.Ver != want:
+		vs = append(vs, c21Verdict{"wrong-version/" + c21Which(c, o.Ver), fmt.Sprintf("expected the request at v%d, the broker saw v%d", want, o.Ver)})
 	}
-	if o.NK == 0 {
-		return "not-written", fmt.Sprintf("v%d satisfies all bounds but no request was written (call returned: %s %q)", want, o.Class, o.Err)
-	}
-	if o.Ver != want {
-		cls := "wrong-version/" + c21Which(c, o.Ver)
-		return cls, fmt.Sprintf("expected the request at v%d, the broker saw v%d", want, o.Ver)
-	}
-	return "", ""
+	return vs
 }
 
 // c21Which names the bound an observed version breaks (for stable keys).
@@ -527,9 +597,9 @@ func c21Which(c c21Case, v int16) string {
 	switch {
 	case v > cm:
 		return "above-client-max"
-	case c.Broker == c21ModeRange && v > c.BMax:
+	case c.ranged() && v > c.BMax:
 		return "above-broker-max"
-	case c.Broker == c21ModeRange && v < c.BMin:
+	case c.ranged() && v < c.BMin:
 		return "below-broker-min"
 	case c.UMax >= 0 && v > c.UMax:
 		return "above-user-max"
@@ -540,11 +610,8 @@ func c21Which(c c21Case, v int16) string {
 	case c.PinMin != c21None && v < c.PinMin:
 		return "below-pin-min"
 	case c.UMax == c21None:
-		def := kversion.Stable()
-		if c.Broker == c21ModePre {
-			def = kversion.V0_9_0()
-		}
-		if u, has := def.LookupMaxKeyVersion(c.Key); has && v > u {
+		def, _ := c21DefaultMax(c)
+		if u, has := def[c.Key]; has && v > u {
 			return "above-default-max"
 		}
 	}
@@ -661,13 +728,16 @@ func c21Keys(thorough bool) (full, boundary []int16) {
 		return
 	}
 	if !thorough {
-		boundary = append(boundary, c21FullKeys...)
+		// quick: full grid for OffsetCommit only (the smallest of the three),
+		// boundary grid for Metadata, Produce and the representative keys
+		full = []int16{8}
+		boundary = []int16{3, 0}
 		for _, k := range c21QuickKeys {
 			if _, ok := c21ClientMax(k); ok {
 				boundary = append(boundary, k)
 			}
 		}
-		return nil, boundary
+		return full, boundary
 	}
 	isFull := map[int16]bool{}
 	for _, k := range c21FullKeys {
@@ -692,6 +762,12 @@ func c21Jobs(thorough bool) []c21Job {
 		for _, bmin := range append([]int16{c21None}, vals...) {
 			for _, bmax := range append([]int16{c21Unbounded}, vals...) {
 				jobs = append(jobs, c21Job{Key: k, Full: isFull, Broker: c21ModeRange, BMin: bmin, BMax: bmax})
+				// (only well-formed ranges: with a crossing range in the
+				// UNSUPPORTED_VERSION answer the client retries at bmax < bmin;
+				// no broker advertises that)
+				if k == 18 && bmin != c21None && bmax != c21Unbounded && bmin <= bmax {
+					jobs = append(jobs, c21Job{Key: k, Full: isFull, Broker: c21ModeKIP511, BMin: bmin, BMax: bmax})
+				}
 			}
 		}
 	}
@@ -740,15 +816,21 @@ func c21Less(a, b c21Case) bool { // "smaller" artefact preferred
 	ja, _ := json.Marshal(a)
 	jb, _ := json.Marshal(b)
 	na, nb := 0, 0
-	for _, v := range []int16{a.UMin, a.UMax, a.PinMin, a.PinMax} {
+	for _, v := range []int16{a.UMin, a.UMax, a.PinMin, a.PinMax, a.BMin, a.BMax - c21Unbounded - 1} {
 		if v != c21None {
 			na++
 		}
 	}
-	for _, v := range []int16{b.UMin, b.UMax, b.PinMin, b.PinMax} {
+	for _, v := range []int16{b.UMin, b.UMax, b.PinMin, b.PinMax, b.BMin, b.BMax - c21Unbounded - 1} {
 		if v != c21None {
 			nb++
 		}
+	}
+	if a.Broker != c21ModeRange {
+		na++
+	}
+	if b.Broker != c21ModeRange {
+		nb++
 	}
 	if na != nb {
 		return na < nb
@@ -801,18 +883,19 @@ func c21ChildMain(t *testing.T, spec string) int {
 				res.Exists++
 			}
 			res.Outcomes[fmt.Sprintf("%d|%s|v%d", c.Key, o.Class, o.Ver)]++
-			cls, what := c21Judge(c, o)
-			if cls != "" {
+			verdicts := c21Judge(c, o)
+			for _, v := range verdicts {
 				c.Name = kmsg.NameForKey(c.Key)
-				f := res.ByKey[cls]
+				f := res.ByKey[v.cls]
 				if f == nil {
-					f = &c21Found{Case: c, Obs: o, What: what, Want: c21WantString(c)}
-					res.ByKey[cls] = f
+					f = &c21Found{Case: c, Obs: o, What: v.what, Want: c21WantString(c)}
+					res.ByKey[v.cls] = f
 				} else if c21Less(c, f.Case) {
-					f.Case, f.Obs, f.What, f.Want = c, o, what, c21WantString(c)
+					f.Case, f.Obs, f.What, f.Want = c, o, v.what, c21WantString(c)
 				}
 				f.Count++
-			} else if len(res.Samples) < 2 && idx%97 == 13 {
+			}
+			if len(verdicts) == 0 && len(res.Samples) < 2 && idx%97 == 13 {
 				c.Name = kmsg.NameForKey(c.Key)
 				res.Samples = append(res.Samples, c21Found{Case: c, Obs: o, Want: c21WantString(c)})
 			}
@@ -854,8 +937,10 @@ func c21Replay(t *testing.T, arg string) int {
 	o := c21Run(t, c)
 	b, _ := json.MarshalIndent(o, "", " ")
 	fmt.Println("observed:", string(b))
-	if cls, what := c21Judge(c, o); cls != "" {
-		fmt.Printf("VIOLATION key=%s: %s\n", cls, what)
+	if vs := c21Judge(c, o); len(vs) > 0 {
+		for _, v := range vs {
+			fmt.Printf("VIOLATION key=%s: %s\n", v.cls, v.what)
+		}
 		return 1
 	}
 	fmt.Println("held")
@@ -876,9 +961,17 @@ func TestVerifC21(t *testing.T) {
 		}
 		os.Exit(code)
 	}
-	r := ev.New("C21", "model_checking")
 	thorough := ev.Thorough()
 	jobs := c21Jobs(thorough)
+	if os.Getenv("C21_COUNT") != "" { // development aid: size of the enumeration
+		var n int64
+		for _, j := range jobs {
+			j.each(func(int, c21Case) bool { n++; return true })
+		}
+		fmt.Printf("tier=%s jobs=%d cases=%d\n", ev.Tier(), len(jobs), n)
+		os.Exit(0)
+	}
+	r := ev.New("C21", "model_checking")
 	fullKeys, boundaryKeys := c21Keys(thorough)
 
 	r.Rule("one case = (request key K, broker advertisement for K, user MinVersions, user MaxVersions, internal pin); the real client talks to a scripted broker over net.Pipe " +
